@@ -227,7 +227,11 @@ struct RowBlock {
     CHECK(begin <= end && end <= size);
     RowBlock ret;
     ret.size = end - begin;
-    ret.label = label + begin;
+    if (label != NULL) {
+      ret.label = label + begin;
+    } else {
+      ret.label = NULL;
+    }
     if (weight != NULL) {
       ret.weight = weight + begin;
     } else {
@@ -367,7 +371,11 @@ template <typename IndexType, typename DType>
 inline Row<IndexType, DType> RowBlock<IndexType, DType>::operator[](size_t rowid) const {
   CHECK(rowid < size);
   Row<IndexType, DType> inst;
-  inst.label = label + rowid;
+  if (label != NULL) {
+    inst.label = label + rowid;
+  } else {
+    inst.label = NULL;
+  }
   if (weight != NULL) {
     inst.weight = weight + rowid;
   } else {
